@@ -24,6 +24,16 @@ def main() -> int:
     watchdog = int(os.environ.get("HV_WATCHDOG", "0") or 0)
     if watchdog:
         signal.alarm(watchdog)
+    # address-space cap per worker: a library change that makes memory explode (e.g. a string that
+    # doubles with every call) then fails with MemoryError inside the library - reported like any
+    # other unexpected exception - instead of getting the worker killed by the kernel
+    try:
+        import resource
+
+        cap = int(os.environ.get("HV_MEM_MB", "3072")) * 1024 * 1024
+        resource.setrlimit(resource.RLIMIT_AS, (cap, cap))
+    except (ImportError, ValueError, OSError):  # pragma: no cover
+        pass
     status = "ok"
     error = None
     abandoned = 0
@@ -54,6 +64,14 @@ def main() -> int:
                     sample_every=sample_every,
                     recheck_every=int(os.environ.get("HV_RECHECK_EVERY", "97") or 97),
                 )
+            except MemoryError as exc:
+                status = "harness-error"
+                abandoned += 1
+                gc.collect()
+                if error is None:
+                    error = "MemoryError while exploring program %d (address-space cap reached)" % idx
+                if abandoned > 200:
+                    break
             except (HarnessError, ReplayDivergence) as exc:
                 # this program is abandoned (still a harness error for the run), the remaining
                 # programs are explored: violations found elsewhere stay reportable
